@@ -417,6 +417,31 @@ class Oracle:
 		if outcome != 'ok':
 			self.fail(f'named-unexpected-{outcome}', f'expand_named_inlines ended with {outcome} although every target is an inline struct')
 			return False
+		position = {decl['name']: index for index, decl in enumerate(before)}
+
+		def expected_layout(decl, stack):
+			"""The members of `decl` with every named inline replaced, in place and RECURSIVELY, by the prefixed copies of the template's
+			members (a template that itself names a template is expanded before it is copied).  None = not judged: the template names
+			itself, or a template that is itself a user is declared AFTER the struct that names it - what that site sees depends on the
+			order in which the structs are processed."""
+			layout = []
+			for member in decl['fields']:
+				if not is_named_site(member):
+					layout.append(member)
+					continue
+				target = by_name[member['type'][1]]
+				target_members = target['fields']
+				if any(is_named_site(f) for f in target['fields']):
+					if target['name'] in stack or position[target['name']] > position[decl['name']]:
+						return None
+					target_members = expected_layout(target, stack + [target['name']])
+					if target_members is None:
+						return None
+					self.judged['nested_sites'] = self.judged.get('nested_sites', 0) + 1
+				comments = member_comment_map(member['comment']) if member['comment'] is not None else {}
+				layout += [prefix_copy(member['name'], f, comments) for f in target_members]
+			return layout
+
 		for decl, decl_after in zip(before, after):
 			if decl['k'] != 'struct':
 				if decl['text'] != decl_after['text']:
@@ -437,18 +462,8 @@ class Oracle:
 					self.fail(signature, f'{decl["disp"] or "plain"} struct {decl["name"]} has no named inline but was changed by the expansion of '
 						f'other structs: {detail}')
 				continue
-			expected = []
-			judgeable = True
-			for member in decl['fields']:
-				if not is_named_site(member):
-					expected.append(member)
-					continue
-				target = by_name[member['type'][1]]
-				if target['name'] == decl['name'] or any(is_named_site(f) for f in target['fields']):
-					judgeable = False   # the template is itself a user: what the site sees depends on the processing order
-					break
-				comments = member_comment_map(member['comment']) if member['comment'] is not None else {}
-				expected += [prefix_copy(member['name'], f, comments) for f in target['fields']]
+			expected = expected_layout(decl, [decl['name']])
+			judgeable = expected is not None
 			if not judgeable:
 				self.judged['skipped_sites'] += 1
 				continue
@@ -754,7 +769,7 @@ class SchemaGen:
 			name = f'Tmpl{index}'
 			lines, names = self.members(rng.randrange(1, 5), True)
 			head = self.comment('')
-			if templates and self.chance(6):
+			if templates and self.chance(15):
 				inner, inner_names = rng.choice(templates)
 				site_lines, site_name = self.site(inner, inner_names)
 				lines += site_lines
@@ -989,6 +1004,33 @@ inline struct Inner
 struct LateUser
 	outer = inline Outer
 ''',
+	'nested-named-inline-templates-before-users': '''inline struct SizePrefixedString
+	size = uint32
+	__value__ = array(int8, size)
+
+inline struct Labelled
+	# [size] size of the label
+	label = inline SizePrefixedString
+	count = uint8
+
+inline struct Tagged
+	tag = inline Labelled
+	extra = inline SizePrefixedString
+
+abstract struct Base
+	version = uint8
+
+struct Box
+	inline Base
+	front = inline Labelled
+	weight = uint32
+	# [label_size] size of the label at the back
+	back = inline Labelled
+
+struct Crate
+	content = inline Tagged
+	note = inline SizePrefixedString
+''',
 	'named-self-and-cycles': '''inline struct Selfish
 	before = uint8
 	again = inline Selfish
@@ -1085,7 +1127,8 @@ def run(check, unrecognised):
 		'declaration names are unique (checked for every compared schema); attribute names are the four the grammar admits',
 		'values are immutable in the model: aliasing between a copy and its template is a defect of the implementation, not modelled']
 	check.extra['rule'] = 'shipped: symbol+nem all_generated.cats / all.cats through the multi-file parser; generated: CATS text ' \
-		'(1-4 inline templates x 0-3 named sites, every member form, unnamed chains depth 0-5 incl. abstract roots, shuffled declaration order, ' \
+		'(1-4 inline templates x 0-3 named sites, templates that themselves name templates (judged recursively when declared before their users), ' \
+		'every member form, unnamed chains depth 0-5 incl. abstract roots, shuffled declaration order, ' \
 		'12% ill-formed) parsed by the real parser; distinct = distinct schema text; non-trivial = all'
 	if unrecognised.get('ExpandOps'):
 		check.notes.append(f'anchors not recognised, pinned constants used for them: {unrecognised["ExpandOps"]}')
